@@ -32,6 +32,7 @@ BASE_PROFILE = dict(
     p_item_fault=0.0,
     item_fault_modes=["error", "unset", "baseerror", "falsyerror"],
     p_flush_fault=0.0,
+    p_same_object=0.08,  # a yielded container is yielded again / reached by two routes in one yield
     p_spawn=0.0,
     max_instances=300,
     sv_names=["sv0", "sv1", "at0"],
@@ -212,6 +213,8 @@ class Gen(object):
             op = _wchoice(rnd, w)
             if op == "yield_":
                 st = ["yield", self.struct(nid, depth, 0)]
+                if st[1][0] != "leaf" and self.p.get("p_same_object", 0) and rnd.random() < self.p["p_same_object"]:
+                    st.append(rnd.choice(["twice", "twice", "dup"]))
                 if self.p.get("p_wrap", 0) and rnd.random() < self.p["p_wrap"] and self._may_fail(st[1]):
                     handler = self.block(nid, depth, bdepth + 1, 2, allow_yield) if rnd.random() < 0.5 else []
                     st = ["try", [st], rnd.choice(["exc", "base", "base"]), handler, rnd.random() < 0.3]
